@@ -67,6 +67,32 @@ char *strcat(char *d, const char *s)
  * sizes of the B units plain loops keep everything in one propositional encoding */
 #endif /* VERIF_SPLIT_PRECISE */
 
+/* Deterministic loop-free strchr (tier P units that need IS_DELIM(c) to give the same answer when it is
+ * asked twice about the same character, i.e. for termination measures): the position of c in s is an
+ * uninterpreted function of (s, c).  Sound as long as the bytes of s are not modified between the calls
+ * (the delimiter string is never in any assigns clause of the functions under contract; DFCC checks
+ * that).  Otherwise identical to env.h's stub: NULL only for c != 0, else a position inside the object
+ * that holds c.  ASSUMES the argument is a valid C string (as env.h). */
+#ifdef VERIF_SPLIT_STRCHR_UF
+# ifndef VERIF_OWN_STRCHR
+#  error "VERIF_SPLIT_STRCHR_UF units must define VERIF_OWN_STRCHR before vprelude.h"
+# endif
+size_t __CPROVER_uninterpreted_strchr_pos(const char *, char);
+char *strchr(const char *s, int c)
+{
+    __CPROVER_assert(s != NULL, "strchr: argument not NULL");
+    __CPROVER_assert(__CPROVER_r_ok(s, 1), "strchr: argument readable");
+    size_t r = __CPROVER_uninterpreted_strchr_pos(s, (char) c);
+    if (r == (size_t) -1) {
+        __CPROVER_assume((char) c != 0);
+        return (char *) 0;
+    }
+    __CPROVER_assume(r < VREMAIN(s) && s[r] == (char) c);
+    return (char *) s + r;
+}
+char *index(const char *s, int c) { return strchr(s, c); }
+#endif
+
 #if defined(VERIF_SPLIT_REALLOC) && !defined(VERIF_REALLOC_ELEM_T)
 void *realloc(void *p, size_t n)
 {
